@@ -49,6 +49,7 @@ class World(object):
         self.damaged_pos = set()      # stripe positions the harness damaged (data) and nobody repaired yet
         self.damaged_par = set()      # (level, pos)
         self.events = []              # what happened, for evidence samples / replay reports
+        self.rehashed = False         # a rehash command ran in this world
         self.last_file = None         # (disk, rel) of the file touched by the latest file-system step
         self._forced = None
         self.nsteps = 0
@@ -346,11 +347,17 @@ class World(object):
 
     # ------------------------------------------------------------------ commands
     def cmd(self, command, args=(), **kw):
+        if command == "rehash":
+            self.rehashed = True
         r = self.arr.run(command, args, **kw)
         self.events.append(("cmd", command, [a if isinstance(a, str) else a.decode("latin-1") for a in args], r.rc))
         return r
 
     def oracle(self, **kw):
+        # a copy-detected block keeps the hash kind of the moment it was detected; once a migration has COMPLETED the previous
+        # kind and seed are forgotten and that hash cannot be verified by anybody (the tool then refuses the copy: safe)
+        if self.rehashed:
+            kw.setdefault("check_rep_hash", False)
         return parityoracle.check(self.arr, self.store, exempt_pos=self.damaged_pos, exempt_parity=self.damaged_par, **kw)
 
     def content_model(self, i=None):
